@@ -1589,23 +1589,41 @@ def _io_callback(ctx, eqn, *args):
 
 # ---- opaque -----------------------------------------------------------------------------------
 
+ArrSort = z3.DeclareSort("Arr")
+
+
 @rule("opaque")
 def _opaque(ctx, eqn, *args):
+    """Uninterpreted function application.  Operands with concrete core shape are passed element by element;
+    an operand whose core shape is symbolic is passed as an abstract array identity (one constant of sort Arr per
+    SArr object: equal only to itself - a sound over-approximation).  Results with symbolic core shape take their
+    core index as extra integer arguments."""
     name = eqn.params["name"]
     levels = eqn.params["levels"]
     nlev = len(levels)
     out_avals = eqn.params["out_avals"]
-    core_shapes = []
+    core_shapes, abstract = [], []
+    ids = ctx.__dict__.setdefault("_arr_ids", {})
     for p, a in enumerate(args):
         nb = sum(1 for L in range(nlev) if levels[L][p])
         cs = a.shape[nb:]
-        if not all(isinstance(d, int) for d in cs):
-            raise Unsupported(f"opaque operand with symbolic core shape {a.shape}")
-        core_shapes.append(cs)
+        if not all(isinstance(d, int) for d in cs) or (cs and int(np.prod(cs)) > 256):
+            if nb:
+                raise Unsupported(f"batched opaque operand with symbolic core shape {a.shape}")
+            if id(a) not in ids:
+                ids[id(a)] = (z3.Const(f"arr!{len(ids)}", ArrSort), a)
+            abstract.append(ids[id(a)][0])
+            core_shapes.append(None)
+        else:
+            abstract.append(None)
+            core_shapes.append(cs)
 
     def operand_terms(bidx):
         terms = []
         for p, a in enumerate(args):
+            if abstract[p] is not None:
+                terms.append(abstract[p])
+                continue
             sub = []
             for L in range(nlev - 1, -1, -1):
                 if levels[L][p]:
@@ -1616,17 +1634,24 @@ def _opaque(ctx, eqn, *args):
 
     arg_sorts = []
     for p, a in enumerate(args):
-        n = int(np.prod(core_shapes[p])) if core_shapes[p] else 1
-        arg_sorts += [sort_of_kind(a.kind)] * n
+        if abstract[p] is not None:
+            arg_sorts.append(ArrSort)
+        else:
+            n = int(np.prod(core_shapes[p])) if core_shapes[p] else 1
+            arg_sorts += [sort_of_kind(a.kind)] * n
 
     outs = []
     for j, (oshape, odt) in enumerate(out_avals):
         shp = ctx.shape(oshape)
         k = kind_of_dtype(odt)
         core = shp[nlev:]
+        sym_core = not all(isinstance(d, int) for d in core)
 
-        def fn(idx, j=j, k=k):
+        def fn(idx, j=j, k=k, shp=shp, sym_core=sym_core):
             bidx, cidx = idx[:nlev], idx[nlev:]
+            if sym_core:
+                f = ctx.uf(f"{name}.{j}", arg_sorts + [z3.IntSort()] * len(cidx), sort_of_kind(k))
+                return f(*(operand_terms(bidx) + [zint(c) for c in cidx]))
             if not all(is_const(c) for c in cidx):
                 # symbolic core index: ite over the concrete core
                 out = None
@@ -1703,3 +1728,22 @@ def _split(ctx, eqn, a):
         outs.append(SArr(shp, a.kind, (lambda idx, off=off: a.at(tuple(idx[:ax]) + (sadd(idx[ax], off),) + tuple(idx[ax + 1:]))), a.dtype))
         off = sadd(off, sizes[j])
     return outs
+
+
+@rule("tile")
+def _tile(ctx, eqn, a):
+    shp = out_shape(ctx, eqn)
+    off = len(shp) - a.ndim
+
+    def fn(idx):
+        sub = []
+        for k, d in enumerate(a.shape):
+            i = idx[off + k]
+            if is_const(i) and is_const(d):
+                sub.append(i % d)
+            elif isinstance(d, int) and d == 1:
+                sub.append(0)
+            else:
+                sub.append(zint(i) % zint(d))
+        return a.at(tuple(sub))
+    return [SArr(shp, a.kind, fn, a.dtype)]
